@@ -226,14 +226,19 @@ collect:
 		return b.String()
 	}
 
+	// The handler decides with the wall clock: if the two reads of a double interruption were far apart on
+	// the reader's own clock the machine stalled and the handler may legitimately have given up there.
+	stalled := false
+	for i := 1; i < len(faultTimes); i++ {
+		if faultRun[i] == 2 && faultTimes[i].Sub(faultTimes[i-1]) >= time.Duration(c.TimeoutMs)*time.Millisecond/2 {
+			stalled = true
+		}
+	}
 	if supplied < expectBytes {
-		// The handler stopped before taking everything it should have.  If it stopped at a double
-		// fault whose two calls were far apart on the reader's own clock, the machine stalled: inconclusive.
-		for i := 1; i < len(faultTimes); i++ {
-			if faultRun[i] == 2 && faultTimes[i].Sub(faultTimes[i-1]) >= time.Duration(c.TimeoutMs)*time.Millisecond/2 {
-				o.Skip = true
-				return nil
-			}
+		// The handler stopped before taking everything it should have: inconclusive after a stall.
+		if stalled {
+			o.Skip = true
+			return nil
 		}
 		o.Key = "stopped-early"
 		return fmt.Errorf("handler stopped after %d of the %d bytes it should have read (returned %v); %s", supplied, expectBytes, herr, describe())
@@ -255,6 +260,10 @@ collect:
 			o.Key = "wrong-message"
 			return fmt.Errorf("message %d: got type %d %x, the uninterrupted stream gives type %d %x; %s", k, got[k].MessageType, got[k].RawData, want.Msgs[k].MessageType, want.Msgs[k].RawData, describe())
 		}
+	}
+	if stalled && wantErr == errOther && herr != nil && herr.Error() != errOther.Error() {
+		o.Skip = true // gave up at the stalled double interruption before the terminal error was reached
+		return nil
 	}
 	if herr == nil || (wantErr == errOther && herr.Error() != errOther.Error()) ||
 		(wantErr != errOther && herr != io.EOF && !strings.Contains(herr.Error(), "i/o timeout")) {
